@@ -20,6 +20,7 @@ SLICE = ['parse_version', 'compare_version', 'struct:NamespaceVersionCandidadate
          'compare_candidate_reverse', 'check_version_conflict', 'get_repository',
          'get_registered_status', 'get_typelib_dependencies', 'load_dependencies_recurse',
          'struct:_GIRepositoryPrivate', 'var:default_repository']
+STUBS = ['init_globals']          # static in girepository.c, defined by the harness instead
 SHAPES = [(1, 0), (2, 0), (3, 0), (1, 1), (4, 0), (1, 2), (2, 1), (5, 0), (1, 3), (2, 2), (3, 1)]
 NSHAPES = [0, 1, 2, 4, 7, 11]
 BUDGET = {'quick': 165, 'thorough': 1380}
@@ -30,7 +31,7 @@ def build():
 
     def prepare(work):
         sl.write_slice(os.path.join(lb.repo(), 'girepository', 'girepository.c'), SLICE,
-                       os.path.join(work, 'sliced_girepository.inc'))
+                       os.path.join(work, 'sliced_girepository.inc'), stubs=STUBS)
     return lb.build(HARNESS, prepare=prepare, ir_cflags=['-fno-builtin'])
 
 
@@ -87,9 +88,12 @@ def v_conflict(loaded, lazy, allow_lazy, version, loaded_version='1.0', lazy_ver
     return d
 
 
-def v_split(deps, ok=(1, 1)):
+def v_split(deps, ok=(1, 1), loaded=0, lazy=0, loaded_version='1.0'):
     d = _base(4)
     d['ndeps'] = len(deps)
+    d['loaded'], d['lazy'] = loaded, lazy
+    for i, ch in enumerate((loaded_version + '\0\0\0')[:3].encode('latin-1')):
+        d['l[%d]' % i] = ch
     for n, text in enumerate(deps):
         b = text.encode('latin-1')
         d['deplen[%d]' % n] = len(b) - 1
@@ -151,6 +155,9 @@ def validation_cases():
     add('split two entries', v_split(['A-1', 'B-C-']), ret=1, calls=2, **{'nslen[1]': 3, 'verlen[1]': 0})
     add('split first require fails', v_split(['A-1', 'B-2'], ok=(0, 1)), ret=0, calls=1)
     add('split no dependencies', v_split([]), ret=1, calls=0)
+    add('split: dependency namespace already loaded at the recorded version', v_split(['A-1.0'], loaded=1), ret=1, calls=1)
+    add('split: dependency namespace loaded at another version', v_split(['A-1.0'], loaded=1, loaded_version='2.0'), ret=1, calls=1)
+    add('split: dependency namespace lazily loaded', v_split(['A-B-2', 'C-1'], lazy=1, loaded_version='2'), ret=1, calls=2)
     return c, e
 
 
@@ -191,8 +198,10 @@ def partitions(tier):
         parts.append(Part('load_dependencies_recurse: Namespace-version split', dict(_base(4), ndeps=nd),
                           'dependency string with 0, 1 (1..7 bytes) or 2 (1..4 bytes each) |-separated entries, any bytes '
                           'except NUL and |, at least one dash each, dashes anywhere before the last one; '
-                          'g_irepository_require stubbed as a recorder that may fail: one call per entry in order until '
-                          'the first failure, namespace = text before the LAST dash, version = text after it'))
+                          'the dependency namespaces not registered / loaded / lazily loaded at any 3-byte version (equal to the '
+                          'recorded one or not); g_irepository_require stubbed as a recorder that may fail: every recorded entry is '
+                          'required, in order, until the first failure - never skipped because something is registered - with '
+                          'namespace = text before the LAST dash and the RECORDED version = text after it'))
     return parts
 
 
@@ -228,8 +237,10 @@ def describe(inp):
             _str(inp, 'v', inp.get('lenv', 0)) if inp.get('has_version') else 'NULL', inp.get('allow_lazy', 0),
             inp.get('loaded', 0), _str(inp, 'l', inp.get('len1', 0)), inp.get('lazy', 0), _str(inp, 'z', inp.get('len2', 0))))
     if m == 4:
-        return 'dependencies ' + ' | '.join(_str(inp, 'dep', inp.get('deplen[%d]' % n, 0) + 1, n * 8)
-                                            for n in range(inp.get('ndeps', 0)))
+        return 'dependencies %s with the dependency namespace %s (registered version %s)' % (
+            ' | '.join(_str(inp, 'dep', inp.get('deplen[%d]' % n, 0) + 1, n * 8) for n in range(inp.get('ndeps', 0))),
+            'loaded' if inp.get('loaded') else 'lazily loaded' if inp.get('lazy') else 'not registered',
+            _str(inp, 'l', 3).replace('\\x00', ''))
     return str(inp)
 
 
